@@ -128,3 +128,34 @@ Example C17_multi_nonvacuous :
              (crun ll_s0 sch) = Some ([CDone; CDone], [([], []); ([], [])]) /\
   option_map (fun s => st (cs s 0)) (crun ll_s0 (firstn 6 sch)) = Some (CWait 1).
 Proof. vm_compute. split; reflexivity. Qed.
+
+(* ---- the host throttle as reghttp uses it (Resp.next): generated table Gen/ThrottleSites.v (extract/slots.go, per run) + the
+   slot of one response over its life (Model/C17_Resp.v).  The slot of a previous attempt is given back before a new one is
+   asked for, and every way out of next after the acquisition hands the slot to the response or gives it back; hence, for every
+   sequence of calls of next (first request, resumed reads, seeks; succeeding or failing), a response never waits for a slot
+   while holding one, holds at most one, and holds none after a call that failed.  Releasing the previous slot only afterwards,
+   or leaving by a way that keeps the slot, are refuted. *)
+From Coq Require Import String.
+From Verif Require Import Gen.ThrottleSites Model.C17_Resp Proofs.C17r.
+Theorem C17_reghttp_previous_slot_released_first : prev_slot_released_before_acquire = true.
+Proof. reflexivity. Qed.
+Theorem C17_reghttp_every_exit_accounts_for_the_slot : forall e, In e slot_exits -> se_released_or_handed_over e = true.
+Proof.
+  assert (H : forallb se_released_or_handed_over slot_exits = true) by (vm_compute; reflexivity).
+  intros e Hin. rewrite forallb_forall in H. exact (H e Hin).
+Qed.
+Print Assumptions C17_reghttp_every_exit_accounts_for_the_slot.
+Example C17_reghttp_exits_found : 3 <= List.length slot_exits. Proof. vm_compute. repeat constructor. Qed.
+Theorem C17_reghttp_response_slot_discipline : forall calls held, held <= 1 ->
+  exists h, resp_run prev_slot_released_before_acquire (forallb se_released_or_handed_over slot_exits) held calls = Some h /\ h <= 1 /\
+            (forall pre, calls = (pre ++ [false])%list -> h = 0).
+Proof.
+  replace prev_slot_released_before_acquire with true by reflexivity.
+  replace (forallb se_released_or_handed_over slot_exits) with true by (vm_compute; reflexivity).
+  exact resp_slot_discipline.
+Qed.
+Print Assumptions C17_reghttp_response_slot_discipline.
+Theorem C17_reghttp_late_release_refuted : resp_run false true 0 [true; true] = None.
+Proof. exact late_release_refuted. Qed.
+Theorem C17_reghttp_leaking_exit_refuted : resp_run true false 0 [false] = Some 1.
+Proof. exact leaking_exit_refuted. Qed.
